@@ -24,6 +24,7 @@ type SolveResult struct {
 	Agree    []string // backends that returned the same definite answer (thorough)
 	QuerySize int
 	Relaxed  bool // model came from a query without background axioms (candidate only)
+	QFOnly   bool // probe answered on the quantifier-free part of the assumptions only
 }
 
 func (o *Oblig) query(withModel bool) string { return o.queryOpt(withModel, false) }
@@ -47,6 +48,9 @@ func (o *Oblig) queryOpt(withModel, relaxed bool) string {
 		n = len(vc.facts)
 	}
 	for _, f := range vc.facts[:n] {
+		if o.dropQuantified && vc.isQuantified(f) {
+			continue
+		}
 		sb.WriteString("(assert ")
 		sb.WriteString(f)
 		sb.WriteString(")\n")
@@ -72,6 +76,19 @@ func (o *Oblig) queryOpt(withModel, relaxed bool) string {
 		sb.WriteString("))\n")
 	}
 	return sb.String()
+}
+
+// isQuantified: the fact contains a quantifier, directly or through a spec function.
+func (vc *FnVC) isQuantified(f string) bool {
+	if strings.Contains(f, "(forall ") || strings.Contains(f, "(exists ") {
+		return true
+	}
+	for name := range vc.quantPures {
+		if strings.Contains(f, "(spec$"+name+" ") {
+			return true
+		}
+	}
+	return false
 }
 
 type solverSpec struct {
@@ -151,6 +168,25 @@ func (s *Solver) Solve(o *Oblig) *SolveResult {
 	res := &SolveResult{AllRaw: map[string]string{}, QuerySize: len(q)}
 	start := time.Now()
 	defer func() {
+		// reachability probe undecided (quantified facts make "sat" hard to establish):
+		// fall back to the quantifier-free part of the assumptions
+		if o.Expect == "sat" && res.Status != "sat" && res.Status != "unsat" {
+			o2 := *o
+			o2.dropQuantified = true
+			rq := o2.queryOpt(false, true)
+			rfile := filepath.Join(s.dir, fmt.Sprintf("q%05d_qf.smt2", id))
+			os.WriteFile(rfile, []byte(rq), 0o644)
+			st, raw, _ := runSolver(context.Background(), solvers[0], rfile, 5)
+			if st == "sat" {
+				res.Status = "sat"
+				res.Backend = solvers[0].name + " (quantifier-free part only)"
+				res.Raw = raw
+				res.QFOnly = true
+			}
+			res.TimeS = time.Since(start).Seconds()
+		}
+	}()
+	defer func() {
 		// no model: retry without the background axioms to obtain a candidate input
 		if o.Expect == "unsat" && res.Status == "unknown" {
 			rq := o.queryOpt(true, true)
@@ -195,7 +231,11 @@ func (s *Solver) Solve(o *Oblig) *SolveResult {
 	for _, sp := range solvers {
 		sp := sp
 		go func() {
-			st, raw, d := runSolver(ctx, sp, file, s.timeoutS)
+			to := s.timeoutS
+			if o.Expect == "sat" && to > 4 {
+				to = 4
+			}
+			st, raw, d := runSolver(ctx, sp, file, to)
 			ch <- ans{sp.name, st, raw, d}
 		}()
 	}
